@@ -114,6 +114,14 @@ CLAIMED = {
              'and the midpoint stays in [lo,hi].',
         note='Accuracy w.r.t. the true arc length depends on length() (C06 unclaimed part). That <=1100 strict shrinkings exhaust the doubles in [0,1] is an argument, not a query.',
         design='3/C07'),
+    'C15': dict(
+        text='Quadratic/Cubic/Line unit_tangent, normal, curvature on symbolic control points and t: at regular points z3 shows the unit tangent '
+             'is the positive unit multiple of the independently built derivative, normal = -i*tangent, curvature*|B\'|^3 = |x\'y\'\'-y\'x\'\'| '
+             '(the sqrt the code takes is captured), Line curvature 0.  Singular end points (P0=P1, P0=P1=P2, mirror cases at t=1, '
+             'quadratic P0=P1 / P1=P2): the real ZeroDivisionError route through rational_limit and the complex square root '
+             '(principal-root stub) is executed and the result is compared with the direction of travel with its sign.',
+        note='Two single-coincidence cubic cases are run with the singular point anchored at the origin in quick (free in thorough). Arc tangent/curvature are consequences of the arc derivative identities (C04). Interior cusps and numpy-scalar inputs outside.',
+        design='3/C15'),
 }
 
 NOT_YET = 'check not built yet in this round (see DESIGN.md section 3 for the plan)'
